@@ -23,7 +23,7 @@ S(t, cols) == [table |-> t, cols |-> cols, filter |-> F2]
 DECLS == TLCEval(<<
   \* 1: T0 -> T1, pairs
   [looking |-> <<S(0, AB)>>, looked |-> S(1, AB), extra |-> <<>>, deg |-> 3,
-   vals |-> <<<<{1, 2}, {1, 2}, {0, 1}>>, <<{1, 2}, {1}, {0, 1}>>>>],
+   vals |-> <<<<{1, 2}, {1, 2}, {1}>>, <<{1, 2}, {1, 2}, {0, 1}>>>>],
   \* 2: the same table twice (consecutive): (a,b) and (b,a) -> T1; one helper column (batch of two)
   [looking |-> <<S(0, AB), S(0, BA)>>, looked |-> S(1, AB), extra |-> <<>>, deg |-> 3,
    vals |-> <<<<{1, 2}, {1, 2}, {1}>>, <<{1, 2}, {1, 2}, {0, 1, 2}>>>>],
